@@ -182,6 +182,18 @@ func other(tag int) interface{} {
 		return l
 	case 28:
 		return strings.Repeat("Long String Attribute ", 8) // 176 bytes
+	case 29: // Go arrays (not slices): unaddressable inside an interface
+		return [65]int{1, 2, 3}
+	case 30:
+		return [4]string{"a", "b"}
+	case 31:
+		l := make([]interface{}, 1000)
+		for i := range l {
+			l[i] = i
+		}
+		return l
+	case 32:
+		return [1000]byte{1}
 	}
 	return struct{}{}
 }
